@@ -85,6 +85,7 @@ func c09Run(r *vt.Run, c c09Case) (canon string) {
 		// marker file); an instance that was cut off from the coordination service before it ever read
 		// the key cannot know about it
 		pausedHost := func(host string) bool { return w.VFSHas("/vfs/" + host + "/maintenance") }
+		everPaused := map[string]bool{}
 		w.OnApply = append(w.OnApply, func(ap *sim.Applied) {
 			if !ap.Effect || !strings.HasPrefix(ap.Call.Proc, "h") {
 				return
@@ -94,6 +95,11 @@ func c09Run(r *vt.Run, c c09Case) (canon string) {
 					who := "/by-an-instance-that-had-paused"
 					if p := w.Procs[ap.Call.Proc]; p != nil && !pausedHost(p.Host) {
 						who = "/by-an-instance-that-never-saw-the-key"
+						if everPaused[p.Host] {
+							// it had paused, saw the leave request and - not holding the lock - un-paused at once,
+							// whether or not the lock holder's leave succeeds
+							who = "/by-an-instance-that-un-paused-on-the-leave-request"
+						}
 					}
 					if leaveRefused() {
 						who += "/while-a-leave-cannot-succeed"
@@ -157,8 +163,14 @@ func c09Run(r *vt.Run, c c09Case) (canon string) {
 			emergeBefore := w.VFSHas("/vfs/" + host + "/emerge")
 			zkWasDown := w.ZK.Down // the instance cannot attempt to leave without the coordination service
 			inTickOf = host
+			if pausedHost(host) {
+				everPaused[host] = true
+			}
 			h.Tick(a)
 			inTickOf = ""
+			if pausedHost(host) {
+				everPaused[host] = true
+			}
 			// light maintenance pauses no instance: nobody sits in the maintenance state (and out of the
 			// manager election) while the key says light mode before and after its iteration
 			if after := maint(); a.state == stateMaintenance && m != nil && m.IsLightMode() && !m.ShouldLeave && after != nil && after.IsLightMode() && !after.ShouldLeave && !w.ZK.Down && !zkWasDown {
@@ -366,7 +378,7 @@ func checkC09(r *vt.Run) {
 		})
 	}
 	// from "a leave was asked for and cannot succeed" (two alive masters): the mode is kept
-	vBFS(r, "leave-refused|", c09Alphabet, depth-1, enabled, func(hist []string) string {
+	vBFS(r, "leave-refused|", c09Alphabet, depth, enabled, func(hist []string) string {
 		c := c09Case{DisableSS: true, Hist: append([]string{"onFull", "mgrTick", "candTick", "twoMasters", "off", "mgrTick"}, hist...)}
 		r.Crumb(c)
 		return "leave-refused|" + c09Run(r, c)
